@@ -427,6 +427,325 @@ def part_new_expr(chk, fns, decls, nargs):
         kinds = [next((vn for vn, vi in V.items() if ev_int(m, disc[i]) == vi), '?') for i in range(nargs)]
         chk.finding('new-expr-' + (hit[0][0] if hit else '?'), f'new_expr with arguments {kinds}: outcome `{hit[0][0] if hit else "?"}` contradicts the documented argument handling (rule-level counterexample over the MIR; {hit[0][1].site if hit and hit[0][1].site else ""})', {'rule': 'new_expr', 'arguments': kinds})
 
+def err_class(e):
+    return list(e.vars)[0] if isinstance(e, Enum) and e.vars else 'opaque'
+
+def part_access(chk, fns, decls):
+    """postfix_expr (`.id` and `["name"]`) and alias_export: the export selected is the documented one"""
+    K = chk.pick(2, 3)
+    chk.bounds['access'] = {'instance_exports_max': K, 'names': 'abstract identities'}
+    wt = chk.decls('wac-types'); inst_idx = bv64(wt.enum_index('ItemKind', 'Instance'))
+    ie = [n for n, t in wt.structs['Interface'][1]].index('exports')
+    types = Lazy('gtypes', 'wac_graph::wac_types::Types'); kind = Lazy('kind', 'ItemKind'); item = Lazy('item', 'Item')
+    fmi_some = z3.Bool('fmi_some'); fmi_name = Lazy('fmi_result', '&str')
+    alias_some = Function('alias_some', IntSort(), BoolSort()); alias_ok = Function('alias_ok', IntSort(), BoolSort())
+    def m_types(ctx): return ctx.ret(Ref(types, ()))
+    def m_index(ctx):
+        idv = ctx.deref(ctx.args[1]); return ctx.ret(Ref(types.kid(f'[{idv.name}]', 'Interface'), ()))
+    def m_item_kind(ctx): return ctx.ret(kind)
+    def m_item_node(ctx): return ctx.ret(Agg((BitVecVal(3, 32),), 'NodeId'))
+    def m_desc(ctx): return ctx.ret(Opaque('desc'))
+    def m_fmi(ctx):
+        ctx.event('fmi', to_atom(ctx.eng, ctx.deref(ctx.args[0])).t); return ctx.ret(models.opt(fmi_some, fmi_name))
+    def m_alias_export(ctx):
+        t = to_atom(ctx.eng, ctx.deref(ctx.args[3])).t; ctx.event('alias_export', t, ctx.deref(ctx.args[2]))
+        return ctx.ret(models.result(alias_ok(t), models.opt(alias_some(t), Agg((t, 'aliased'), 'Item')), Opaque('alias-error')))
+    def m_alias_instance_export(ctx):
+        t = to_atom(ctx.eng, ctx.deref(ctx.args[2])).t; ctx.event('graph.alias', ctx.deref(ctx.args[1]).f[0], t)
+        return ctx.ret(models.ok(Agg((BitVecVal(9, 32),), 'NodeId')))
+    common = [(r'^CompositionGraph::types$', m_types), (r'^<wac_graph::wac_types::Types as Index<InterfaceId>>::index$', m_index), (r'^Item::kind$', m_item_kind),
+              (r'^Item::node$', m_item_node), (r'^ItemKind::desc$', m_desc), (r'^AstResolver::<.*>::find_matching_interface_name$', m_fmi)]
+    id_order = [n for n, t in decls.structs['Ident'][1]]
+    # ---- postfix_expr
+    eng = chk.engine(fns, decls, overrides=common + [(r'^AstResolver::<.*>::alias_export$', m_alias_export)], vec_cap=K, loop_bound=K + 3); eng.atom_strings = True
+    fname = resolver_fn(eng, 'postfix_expr')
+    pe = Lazy('postfix', "ast::PostfixExpr<'_>")
+    outs = run_fn(eng, fname, [Opaque('self'), Ref(Lazy('state', 'State'), ()), item, Ref(pe, ()), Lazy('parent_span', 'SourceSpan')]); chk.account(eng, [fname])
+    ia = decls.enum_index('PostfixExpr', 'Access'); ina = decls.enum_index('PostfixExpr', 'NamedAccess')
+    ao = [n for n, t in decls.structs['AccessExpr'][1]]; no = [n for n, t in decls.structs['NamedAccessExpr'][1]]
+    so = [n for n, t in decls.structs['String'][1]]
+    ident_t = lazy_atom(pe.kid('Access.0').kid(str(ao.index('id'))).kid(str(id_order.index('string')))).t
+    str_t = lazy_atom(pe.kid('NamedAccess.0').kid(str(no.index('string'))).kid(str(so.index('value')))).t
+    is_access = pe.disc == bv64(ia); is_inst = kind.disc == inst_idx
+    want = If(is_access, If(fmi_some, lazy_atom(fmi_name).t, ident_t), str_t)
+    base = list(eng.assumptions) + [ULT(pe.disc, bv64(2)), ULT(kind.disc, bv64(len(wt.enums['ItemKind'])))]
+    bads = []; hist = {}
+    for o in outs:
+        if o.kind == 'bound': continue
+        if o.kind != 'ret': bads.append(o.cond()); hist['panic'] = hist.get('panic', 0) + 1; continue
+        v = o.value; al = [t for t in o.st.trace if t[0] == 'alias_export']
+        called = BoolVal(len(al) == 1) if al else BoolVal(False)
+        right = And(called, al[0][1] == want, BoolVal(al[0][2] is item)) if al else BoolVal(False)
+        if 'Ok' in v.vars:
+            it = v.vars['Ok'][0]; hist['ok'] = hist.get('ok', 0) + 1
+            okc = And(right, alias_ok(want), alias_some(want), BoolVal(isinstance(it, Agg) and len(it.f) == 2 and it.f[1] == 'aliased'), (it.f[0] == want) if isinstance(it, Agg) and len(it.f) == 2 else BoolVal(False))
+            # an `.id` access on a non-instance is reported by postfix_expr itself; `["name"]` leaves it to alias_export (by contract)
+            okc = And(okc, Implies(is_access, is_inst))
+        else:
+            e = v.vars['Err'][0]; cls = err_class(e); hist[cls] = hist.get(cls, 0) + 1
+            if cls == 'NotAnInstance': okc = And(is_access, Not(is_inst), BoolVal(not al))
+            elif cls == 'MissingInstanceExport':
+                got = to_atom(eng, eng.deref(o.st, e.vars[cls][0])).t
+                okc = And(right, alias_ok(want), Not(alias_some(want)), got == want, Implies(is_access, is_inst))
+            else: okc = And(right, Not(alias_ok(want)), Implies(is_access, is_inst))
+        bads.append(And(o.cond(), Not(okc)))
+    chk.notes.append(f'postfix_expr: {len(outs)} paths, outcome classes {hist}')
+    r, m = chk.obligation('access expression: `.id` selects the unique last-segment match among the instance exports, else the export named id; `["s"]` selects the export named s verbatim; a missing export / non-instance is reported, nothing else is aliased', base + [Or(bads + [BoolVal(False)])], base=base)
+    report(chk, r, run_access_battery(chk), 'access-selects-export', 'postfix_expr')
+    # ---- alias_export
+    eng2 = chk.engine(fns, decls, overrides=common + [(r'^CompositionGraph::alias_instance_export$', m_alias_instance_export)], vec_cap=K, loop_bound=K + 3); eng2.atom_strings = True
+    fname2 = resolver_fn(eng2, 'alias_export')
+    name = Lazy('name', '&str')
+    outs2 = run_fn(eng2, fname2, [Opaque('self'), Ref(Lazy('state', 'State'), ()), item, name, Lazy('span', 'SourceSpan'), Lazy('operation', 'InstanceOperation')]); chk.account(eng2, [fname2])
+    exports = types.kid(f'[{kind.kid("Instance.0").name}]').kid(str(ie))
+    nt = lazy_atom(name).t
+    has = Or([And(ULT(bv64(i), exports.len()), lazy_atom(exports.kid(f'[{i}].k')).t == nt) for i in range(K)])
+    base2 = list(eng2.assumptions) + [ULE(exports.len(), bv64(K)), ULT(kind.disc, bv64(len(wt.enums['ItemKind'])))]
+    bads2 = []; hist2 = {}
+    for o in outs2:
+        if o.kind == 'bound': continue
+        if o.kind != 'ret': bads2.append(o.cond()); hist2['panic'] = hist2.get('panic', 0) + 1; continue
+        v = o.value; ga = [t for t in o.st.trace if t[0] == 'graph.alias']
+        if 'Ok' in v.vars:
+            opt = v.vars['Ok'][0]
+            if 'Some' in opt.vars and 'None' not in opt.vars:
+                hist2['some'] = hist2.get('some', 0) + 1
+                okc = And(is_inst, has, BoolVal(len(ga) == 1), (ga[0][2] == nt) if ga else BoolVal(False), (ga[0][1] == BitVecVal(3, 32)) if ga else BoolVal(False))
+                node = opt.vars['Some'][0]
+                okc = And(okc, BoolVal(isinstance(node, Enum) and 'Node' in node.vars and isinstance(node.vars['Node'][0], Agg) and z3.is_bv_value(node.vars['Node'][0].f[0]) and node.vars['Node'][0].f[0].as_long() == 9))
+            elif 'None' in opt.vars and 'Some' not in opt.vars:
+                hist2['none'] = hist2.get('none', 0) + 1
+                okc = And(is_inst, Not(has), BoolVal(not ga))
+            else: okc = BoolVal(False)
+        else:
+            cls = err_class(v.vars['Err'][0]); hist2[cls] = hist2.get(cls, 0) + 1
+            okc = And(BoolVal(cls == 'NotAnInstance'), Not(is_inst), BoolVal(not ga))
+        bads2.append(And(o.cond(), Not(okc)))
+    chk.notes.append(f'alias_export: {len(outs2)} paths, outcome classes {hist2}')
+    r, m = chk.obligation('alias_export: aliases exactly the named export of the given instance when the instance type has it, None when it has not, NotAnInstance otherwise', base2 + [Or(bads2 + [BoolVal(False)])], base=base2)
+    if r == 'sat': chk.finding('alias-export-rule', 'alias_export deviates from the documented rule (rule-level counterexample over the MIR)', {'rule': 'alias_export'})
+
+PROVIDER2 = '(component (type (instance)) (import "dummy" (instance (type 0))) (export "foo:bar/c@1.0.0" (instance 0)) (export "foo:baz/d" (instance 0)) (export "c" (instance 0)) (export "x" (instance 0)))'
+PROVIDER3 = '(component (type (instance)) (import "dummy" (instance (type 0))) (export "foo:bar/c@1.0.0" (instance 0)) (export "foo:baz/c" (instance 0)) (export "foo:baz/d" (instance 0)))'
+def doc_exports(nat):
+    if not nat.get('ok'): return {'!error': nat.get('error') or str(nat)[:300]}
+    return nat.get('exports')
+ACCESS_BATTERY = [   # (what, document, packages, documented exports of the composition {name: node description})
+    ('`.d` selects the unique export whose last segment is d', 'package t:doc; import dummy: interface {}; let p = new t:p { dummy }; export p.d as out;', {'t:p': PROVIDER2}, {'out': 'alias:foo:baz/d@inst:p'}),
+    ('an export named exactly c wins over a last-segment match', 'package t:doc; import dummy: interface {}; let p = new t:p { dummy }; export p.c as out;', {'t:p': PROVIDER2}, {'out': 'alias:c@inst:p'}),
+    ('`["foo:bar/c@1.0.0"]` is verbatim', 'package t:doc; import dummy: interface {}; let p = new t:p { dummy }; export p["foo:bar/c@1.0.0"] as out;', {'t:p': PROVIDER2}, {'out': 'alias:foo:bar/c@1.0.0@inst:p'}),
+    ('`["c"]` does not match by last segment', 'package t:doc; import dummy: interface {}; let p = new t:p { dummy }; export p["d"] as out;', {'t:p': PROVIDER2}, None),
+    ('an ambiguous last segment is not selected', 'package t:doc; import dummy: interface {}; let p = new t:p { dummy }; export p.c as out;', {'t:p': PROVIDER3}, None),
+    ('version is stripped for the last-segment match', 'package t:doc; import dummy: interface {}; let p = new t:p { dummy }; export p.d as out; export p["foo:bar/c@1.0.0"] as out2;', {'t:p': PROVIDER3}, {'out': 'alias:foo:baz/d@inst:p', 'out2': 'alias:foo:bar/c@1.0.0@inst:p'}),
+    ('access on a non-instance is an error', 'package t:doc; import f: func(); export f.x as out;', {}, None),
+]
+EXPORT_BATTERY = [
+    ('export of an import uses the import name', 'package t:doc; import f as g: func(); export f;', {}, {'g': 'import:g'}),
+    ('export of an accessed export uses the export name', 'package t:doc; import dummy: interface {}; let p = new t:p { dummy }; let q = p.x; export q;', {'t:p': PROVIDER2}, {'x': 'alias:x@inst:p'}),
+    ('export of an instance with an interface id uses the id', 'package t:doc; import dummy: interface {}; let p = new t:p { dummy }; let q = p.d; export q;', {'t:p': PROVIDER2}, {'foo:baz/d': 'alias:foo:baz/d@inst:p'}),
+    ('export of an instantiation needs `as`', 'package t:doc; import dummy: interface {}; let p = new t:p { dummy }; export p;', {'t:p': PROVIDER2}, None),
+    ('`as` overrides the inferred name', 'package t:doc; import f as g: func(); export f as h;', {}, {'h': 'import:g'}),
+    ('export spread exports every export not yet exported', 'package t:doc; import dummy: interface {}; let p = new t:p { dummy }; import f: func(); export f as x; export p...;', {'t:p': PROVIDER2},
+     {'x': 'import:f', 'foo:bar/c@1.0.0': 'alias:foo:bar/c@1.0.0@inst:p', 'foo:baz/d': 'alias:foo:baz/d@inst:p', 'c': 'alias:c@inst:p'}),
+    ('duplicate export name is an error', 'package t:doc; import f: func(); import g: func(); export f as x; export g as x;', {}, None),
+    ('export conflicting with a definition is an error', 'package t:doc; type x = u32; import f: func(); export f as x;', {}, None),
+    ('export spread with nothing left is an error', 'package t:doc; import dummy: interface {}; let p = new t:p { dummy }; export p...; export p...;', {'t:p': PROVIDER2}, None),
+]
+def run_doc_battery(chk, battery, fn):
+    bad = []
+    for what, doc, pkgs, exp in battery:
+        case = {'op': 'resolve_doc', 'doc': doc, 'packages': pkgs}
+        got = doc_exports(chk.native(case))
+        chk.sample({'fn': fn, 'doc': doc, 'exports': got})
+        if (exp is None) != (isinstance(got, dict) and '!error' in got) or (exp is not None and got != exp): bad.append((what, case, got, exp))
+    return bad
+def run_access_battery(chk): return run_doc_battery(chk, ACCESS_BATTERY, 'postfix_expr')
+
+def part_export(chk, fns, decls):
+    """infer_export_name, export_item, export_statement: the exported names are the documented ones"""
+    K = chk.pick(2, 3)
+    chk.bounds['export'] = {'instance_exports_max': K, 'names': 'abstract identities'}
+    wt = chk.decls('wac-types'); inst_idx = bv64(wt.enum_index('ItemKind', 'Instance'))
+    io = [n for n, t in wt.structs['Interface'][1]]; ii = io.index('id'); ie = io.index('exports')
+    types = Lazy('gtypes', 'wac_graph::wac_types::Types'); kind = Lazy('kind', 'ItemKind'); item = Lazy('item', 'Item')
+    has_import_name = z3.Bool('node_is_import'); import_name = Lazy('import_name', '&str')
+    has_alias = z3.Bool('node_is_alias'); alias_name = Lazy('alias_export_name', '&str')
+    def m_types(ctx): return ctx.ret(Ref(types, ()))
+    def m_index(ctx):
+        idv = ctx.deref(ctx.args[1]); return ctx.ret(Ref(types.kid(f'[{idv.name}]', 'Interface'), ()))
+    def m_item_kind(ctx): return ctx.ret(kind)
+    def m_item_node(ctx):
+        it = ctx.deref(ctx.args[0])
+        return ctx.ret(Agg((it.f[0] if isinstance(it, Agg) and len(it.f) == 2 and it.f[1] == 'aliased' else BitVecVal(3, 32),), 'NodeId'))
+    def m_desc(ctx): return ctx.ret(Opaque('desc'))
+    def m_get_import_name(ctx): return ctx.ret(models.opt(has_import_name, import_name))
+    def m_get_alias_source(ctx): return ctx.ret(models.opt(And(Not(has_import_name), has_alias), Agg((Lazy('srcnode', 'NodeId'), alias_name))))      # a node is an import or an alias, never both
+    common = [(r'^CompositionGraph::types$', m_types), (r'^<wac_graph::wac_types::Types as Index<InterfaceId>>::index$', m_index), (r'^Item::kind$', m_item_kind),
+              (r'^Item::node$', m_item_node), (r'^ItemKind::desc$', m_desc), (r'^CompositionGraph::get_import_name$', m_get_import_name),
+              (r'^CompositionGraph::get_alias_source$', m_get_alias_source)]
+    nkinds = len(wt.enums['ItemKind'])
+    # ---- infer_export_name
+    eng = chk.engine(fns, decls, overrides=common, vec_cap=K, loop_bound=K + 3); eng.atom_strings = True
+    fname = resolver_fn(eng, 'infer_export_name')
+    outs = run_fn(eng, fname, [Opaque('self'), Ref(Lazy('state', 'State'), ()), item]); chk.account(eng, [fname])
+    iface_id = types.kid(f'[{kind.kid("Instance.0").name}]').kid(str(ii))
+    r1 = And(kind.disc == inst_idx, iface_id.disc == bv64(1))
+    want_some = Or(r1, has_import_name, has_alias)
+    want = If(r1, lazy_atom(iface_id.kid('Some.0')).t, If(has_import_name, lazy_atom(import_name).t, lazy_atom(alias_name).t))
+    base = list(eng.assumptions) + [ULT(kind.disc, bv64(nkinds)), ULT(iface_id.disc, bv64(2))]
+    bads = []; hist = {}
+    for o in outs:
+        if o.kind == 'bound': continue
+        if o.kind != 'ret': bads.append(o.cond()); hist['panic'] = hist.get('panic', 0) + 1; continue
+        v = o.value
+        if 'Some' in v.vars and 'None' not in v.vars:
+            hist['some'] = hist.get('some', 0) + 1
+            bads.append(And(o.cond(), Not(And(want_some, to_atom(eng, eng.deref(o.st, v.vars['Some'][0])).t == want))))
+        elif 'None' in v.vars and 'Some' not in v.vars:
+            hist['none'] = hist.get('none', 0) + 1; bads.append(And(o.cond(), want_some))
+        else: bads.append(o.cond())
+    chk.notes.append(f'infer_export_name: {len(outs)} paths, outcome classes {hist}')
+    r, m = chk.obligation('inferred export name: the interface id of an instance, else the import name, else the aliased export name, else none', base + [Or(bads + [BoolVal(False)])], base=base)
+    bad_docs = run_doc_battery(chk, EXPORT_BATTERY, 'export_statement')
+    verdicts = [(r, 'export-name-inference', 'infer_export_name')]
+    # ---- export_item
+    root_has = z3.Bool('root_scope_has_name'); nodekind = Lazy('nodekind', 'NodeKind'); EXPORT_RES = z3.Int('graph_export_result')
+    gd = chk.decls('wac-graph'); def_idx = bv64(gd.enum_index('NodeKind', 'Definition')); nnk = len(gd.enums['NodeKind'])
+    xerrs = decls_enum_variants(chk, 'ExportError')
+    def m_root_scope(ctx): return ctx.ret(Ref(Lazy('rootscope', 'Scope'), ()))
+    def m_scope_get(ctx):
+        ctx.event('scope.get', to_atom(ctx.eng, ctx.deref(ctx.args[1])).t)
+        return ctx.ret(models.opt(root_has, Agg((Agg((BitVecVal(5, 32), 'aliased'), 'Item'), Lazy('prevspan', 'SourceSpan')))))
+    def m_graph_index(ctx): ctx.event('graph.index', ctx.deref(ctx.args[1]).f[0]); return ctx.ret(Ref(Lazy('gnode', 'Node'), ()))
+    def m_node_kind(ctx): return ctx.ret(Ref(nodekind, ()))
+    def m_node_item_kind(ctx): return ctx.ret(Lazy('nodeitemkind', 'ItemKind'))
+    def m_export(ctx):
+        node = ctx.deref(ctx.args[1]); name = to_atom(ctx.eng, ctx.deref(ctx.args[2])).t; ctx.event('graph.export', node.f[0], name)
+        mk = lambda v, fs: models.err(Enum('ExportError', bv64(xerrs.index(v)), {v: fs}))
+        return ctx.forks([(EXPORT_RES == 0, models.ok(UNIT)),
+                          (EXPORT_RES == 1, mk('ExportAlreadyExists', (Atom(name), Agg((BitVecVal(8, 32),), 'NodeId')))),
+                          (And(EXPORT_RES != 0, EXPORT_RES != 1), mk('InvalidExportName', (Atom(name), Opaque('source'))))])
+    def m_spans_index(ctx): return ctx.ret(Ref(Lazy('prevexportspan', 'SourceSpan'), ()))
+    def m_spans_insert(ctx): ctx.event('spans.insert', ctx.deref(ctx.args[1]).f[0]); return ctx.ret(models.none())
+    ov_item = common + [(r'^State::root_scope$', m_root_scope), (r'^(?:resolution::)?Scope::get$', m_scope_get), (r'^<CompositionGraph as Index<NodeId>>::index$', m_graph_index),
+                        (r'^Node::kind$', m_node_kind), (r'^Node::item_kind$', m_node_item_kind), (r'^CompositionGraph::export::<.*>$', m_export),
+                        (r'^<HashMap<NodeId, miette::SourceSpan> as Index<&NodeId>>::index$', m_spans_index), (r'^HashMap::<NodeId, miette::SourceSpan>::insert$', m_spans_insert)]
+    eng2 = chk.engine(fns, decls, overrides=ov_item, vec_cap=K, loop_bound=K + 3); eng2.atom_strings = True
+    fname2 = resolver_fn(eng2, 'export_item')
+    name = Lazy('export_name', 'std::string::String'); nt = lazy_atom(name).t
+    outs2 = run_fn(eng2, fname2, [Opaque('self'), Ref(Lazy('state', 'State'), ()), item, name, Lazy('span', 'SourceSpan'), Lazy('show_hint', 'bool')]); chk.account(eng2, [fname2])
+    base2 = list(eng2.assumptions) + [ULT(nodekind.disc, bv64(nnk))]
+    conflict = And(root_has, nodekind.disc == def_idx)
+    perr = decls_enum_variants_of(decls, 'Error'); ek = decls.enum_index('ExternKind', 'Export')
+    bads2 = []; hist2 = {}; dbg2 = []
+    for o in outs2:
+        if o.kind == 'bound': continue
+        if o.kind != 'ret': bads2.append(o.cond()); hist2['panic'] = hist2.get('panic', 0) + 1; dbg2.append(('panic', o.st.trace, o.site)); continue
+        v = o.value; tr = o.st.trace; ex = [t for t in tr if t[0] == 'graph.export']; sg = [t for t in tr if t[0] == 'scope.get']; gi = [t for t in tr if t[0] == 'graph.index']
+        looked = And(BoolVal(len(sg) == 1), sg[0][1] == nt) if sg else BoolVal(False)
+        # the definition looked at is the node bound to the name in the root scope (node 5), not the exported item (node 3)
+        right_node = And([g[1] == BitVecVal(5, 32) for g in gi] + [BoolVal(True)])
+        exported = And(BoolVal(len(ex) == 1), ex[0][1] == BitVecVal(3, 32), ex[0][2] == nt) if ex else BoolVal(False)
+        if 'Ok' in v.vars:
+            hist2['ok'] = hist2.get('ok', 0) + 1
+            si = [t for t in tr if t[0] == 'spans.insert']
+            okc = And(looked, right_node, Not(conflict), exported, EXPORT_RES == 0, BoolVal(len(si) == 1), (si[0][1] == BitVecVal(3, 32)) if si else BoolVal(False))
+        else:
+            e = v.vars['Err'][0]; cls = err_class(e); hist2[cls] = hist2.get(cls, 0) + 1
+            fs = e.vars.get(cls, ())
+            def field(n):
+                names_ = [f[0] for f in perr[cls]]; return eng2.deref(o.st, fs[names_.index(n)])
+            if cls == 'ExportConflict': okc = And(looked, right_node, conflict, BoolVal(not ex), to_atom(eng2, field('name')).t == nt)
+            elif cls == 'DuplicateExternName': okc = And(looked, right_node, Not(conflict), exported, EXPORT_RES == 1, to_atom(eng2, field('name')).t == nt, field('kind').disc == bv64(ek))
+            elif cls == 'InvalidExternName': okc = And(looked, right_node, Not(conflict), exported, EXPORT_RES != 0, EXPORT_RES != 1, to_atom(eng2, field('name')).t == nt, field('kind').disc == bv64(ek))
+            else: okc = BoolVal(False)
+        bads2.append(And(o.cond(), Not(okc))); dbg2.append((cls if 'Err' in v.vars else 'ok', tr, okc))
+    chk.notes.append(f'export_item: {len(outs2)} paths, outcome classes {hist2}')
+    r, m = chk.obligation('export_item: a name bound to a definition in the root scope is a conflict; otherwise the item is exported under exactly the given name and the graph\'s verdict is reported as duplicate / invalid export name', base2 + [Or(bads2 + [BoolVal(False)])], base=base2)
+    if r == 'sat' and os.environ.get('VERIF_DEBUG'):
+        for (c_, tr_, ok_), b_ in zip(dbg2, bads2):
+            if ev_bool(m, b_): print('DEBUG export_item hit', c_, tr_, ok_ if c_ == 'panic' else z3.simplify(ok_), flush=True)
+    verdicts.append((r, 'export-item-rule', 'export_item'))
+    # ---- export_statement
+    expr_ok = z3.Bool('expr_ok'); infer_some = z3.Bool('infer_some'); infer_name = Lazy('inferred_export_name', '&str')
+    EXPORTED = Function('already_exported', IntSort(), BoolSort()); ALIAS_OK = Function('alias_ok', IntSort(), BoolSort()); ITEM_OK = Function('export_item_ok', IntSort(), BoolSort())
+    def m_expr(ctx): return ctx.ret(models.result(expr_ok, item, Opaque('expr-error')))
+    def m_infer(ctx): ctx.event('infer', ctx.deref(ctx.args[2])); return ctx.ret(models.opt(infer_some, infer_name))
+    def m_get_export(ctx):
+        t = to_atom(ctx.eng, ctx.deref(ctx.args[1])).t; ctx.event('get_export', t)
+        return ctx.ret(models.opt(EXPORTED(t), Agg((BitVecVal(6, 32),), 'NodeId')))
+    def m_alias_export(ctx):
+        t = to_atom(ctx.eng, ctx.deref(ctx.args[3])).t; ctx.event('alias_export', t, ctx.deref(ctx.args[2]))
+        # contract (obligation above): Some exactly when the instance type has the export - the names handed over here come from that type
+        return ctx.ret(models.result(ALIAS_OK(t), models.some(Agg((t, 'aliased'), 'Item')), Opaque('alias-error')))
+    def m_export_item(ctx):
+        it = ctx.deref(ctx.args[2]); t = to_atom(ctx.eng, ctx.deref(ctx.args[3])).t; ctx.event('export_item', it, t, ctx.deref(ctx.args[5]))
+        return ctx.ret(models.result(ITEM_OK(t), UNIT, Opaque('export-item-error')))
+    ov_stmt = common + [(r'^AstResolver::<.*>::expr$', m_expr), (r'^AstResolver::<.*>::infer_export_name$', m_infer), (r'^CompositionGraph::get_export$', m_get_export),
+                        (r'^AstResolver::<.*>::alias_export$', m_alias_export), (r'^AstResolver::<.*>::export_item$', m_export_item)]
+    eng3 = chk.engine(fns, decls, overrides=ov_stmt, vec_cap=K, loop_bound=K + 3); eng3.atom_strings = True
+    fname3 = resolver_fn(eng3, 'export_statement')
+    stmt = Lazy('stmt', "ast::ExportStatement<'_>"); so_ = [n for n, t in decls.structs['ExportStatement'][1]]
+    opts = stmt.kid(str(so_.index('options')))
+    outs3 = run_fn(eng3, fname3, [Opaque('self'), Ref(Lazy('state', 'State'), ()), Ref(stmt, ()), Opaque('packages')]); chk.account(eng3, [fname3])
+    exports = types.kid(f'[{kind.kid("Instance.0").name}]').kid(str(ie))
+    xn = [lazy_atom(exports.kid(f'[{i}].k')).t for i in range(K)]
+    present = [ULT(bv64(i), exports.len()) for i in range(K)]
+    O = {v: bv64(decls.enum_index('ExportOptions', v)) for v in ('None', 'Spread', 'Rename')}
+    id_order = [n for n, t in decls.structs['Ident'][1]]; str_order = [n for n, t in decls.structs['String'][1]]
+    xi = decls.enum_index('ExternName', 'Ident')
+    ren = opts.kid('Rename.0')
+    rename_t = If(ren.disc == bv64(xi), lazy_atom(ren.kid('Ident.0').kid(str(id_order.index('string')))).t, lazy_atom(ren.kid('String.0').kid(str(str_order.index('value')))).t)
+    is_inst = kind.disc == inst_idx
+    base3 = list(eng3.assumptions) + [ULT(opts.disc, bv64(3)), ULT(ren.disc, bv64(2)), ULT(kind.disc, bv64(nkinds)), ULE(exports.len(), bv64(K))] + [a != b for a, b in itertools.combinations(xn, 2)]
+    # reference for the spread: walk the instance exports in order
+    todo = [And(present[i], Not(EXPORTED(xn[i]))) for i in range(K)]
+    fail = [And(todo[i], Or(Not(ALIAS_OK(xn[i])), Not(ITEM_OK(xn[i])))) for i in range(K)]
+    def first_fail(i): return And(fail[i], And([Not(fail[j]) for j in range(i)] + [BoolVal(True)]))
+    any_fail = Or(fail)
+    bads3 = []; hist3 = {}
+    for o in outs3:
+        if o.kind == 'bound': continue
+        if o.kind != 'ret': bads3.append(o.cond()); hist3['panic'] = hist3.get('panic', 0) + 1; continue
+        v = o.value; tr = o.st.trace; xi_ = [t for t in tr if t[0] == 'export_item']; al = [t for t in tr if t[0] == 'alias_export']
+        def single(t_, hint):
+            return And(BoolVal(len(xi_) == 1), BoolVal(xi_[0][1] is item) if xi_ else BoolVal(False), (xi_[0][2] == t_) if xi_ else BoolVal(False),
+                       (xi_[0][3] == BoolVal(hint)) if xi_ and z3.is_expr(xi_[0][3]) else BoolVal(bool(xi_) and xi_[0][3] is hint), BoolVal(not al))
+        if 'Ok' in v.vars:
+            hist3['ok'] = hist3.get('ok', 0) + 1
+            c_none = And(opts.disc == O['None'], infer_some, single(lazy_atom(infer_name).t, True), ITEM_OK(lazy_atom(infer_name).t))
+            c_ren = And(opts.disc == O['Rename'], single(rename_t, False), ITEM_OK(rename_t))
+            # spread: exactly the exports not yet exported, in order, each aliased from the spread instance and exported under its own name
+            items = [(todo[i], xn[i]) for i in range(K)]
+            seq = seq_match(items, xi_, lambda it, e: And(it[1] == e[2], BoolVal(isinstance(e[1], Agg) and len(e[1].f) == 2 and e[1].f[1] == 'aliased'), (e[1].f[0] == it[1]) if isinstance(e[1], Agg) and len(e[1].f) == 2 else BoolVal(False)))
+            seqa = seq_match(items, al, lambda it, e: And(it[1] == e[1], BoolVal(e[2] is item)))
+            c_spread = And(opts.disc == O['Spread'], is_inst, Not(any_fail), Or(todo), seq, seqa)
+            okc = And(expr_ok, Or(c_none, c_ren, c_spread))
+        else:
+            e = v.vars['Err'][0]; cls = err_class(e); hist3[cls] = hist3.get(cls, 0) + 1
+            if cls == 'ExportRequiresAs': okc = And(expr_ok, opts.disc == O['None'], Not(infer_some), BoolVal(not xi_))
+            elif cls == 'NotAnInstance': okc = And(expr_ok, opts.disc == O['Spread'], Not(is_inst), BoolVal(not xi_))
+            elif cls == 'SpreadExportNoEffect': okc = And(expr_ok, opts.disc == O['Spread'], is_inst, Not(Or(todo)), BoolVal(not xi_))
+            else:
+                okc = Or(Not(expr_ok),
+                         And(opts.disc == O['None'], infer_some, Not(ITEM_OK(lazy_atom(infer_name).t))),
+                         And(opts.disc == O['Rename'], Not(ITEM_OK(rename_t))),
+                         And(opts.disc == O['Spread'], is_inst, any_fail))
+        bads3.append(And(o.cond(), Not(okc)))
+    chk.notes.append(f'export_statement: {len(outs3)} paths, outcome classes {hist3}')
+    r, m = chk.obligation('export statement: plain export uses the inferred name (error when none), `as` uses the given name verbatim, `...` exports every export of the instance not yet exported, in order, under its own name; ineffective spread / non-instance rejected', base3 + [Or(bads3 + [BoolVal(False)])], base=base3)
+    verdicts.append((r, 'export-statement-rule', 'export_statement'))
+    sat = [x for x in verdicts if x[0] == 'sat']
+    if sat:
+        for r_, role, fn in sat: report(chk, 'sat', bad_docs, role, fn)
+    else: report(chk, 'unsat', bad_docs, 'export-statement-rule', 'export_statement')
+
+def decls_enum_variants_of(decls, name):
+    """{variant: [(field name, type), ...]} of an enum of the parser crate"""
+    for path, vs in decls.enums_all.get(name, []):
+        if 'resolution' in path: return {v: list(f) for v, k, f in vs}
+    return {v: list(f) for v, k, f in decls.enums[name]}
+
 def decls_enum_variants(chk, name):
     d = chk.decls('wac-graph')
     e = d.enums[name] if name in d.enums else d.enums[[k for k in d.enums if k.split('@')[0] == name][0]]
@@ -441,14 +760,16 @@ def seq_match(items, events, key):
     return And(cs)
 
 def body(chk):
-    chk.assumptions += ['names are abstract identities in the precedence and spread kernels (find_matching_interface_name is checked on real strings separately and enters the others as an arbitrary Option)',
+    chk.assumptions += ['access / export kernels: Item::kind, Item::node, get_import_name, get_alias_source, Scope::get, CompositionGraph::{export, get_export, alias_instance_export} and the sibling kernels are arbitrary results (contracts); a node is an import or an alias, never both', 'names are abstract identities in the precedence and spread kernels (find_matching_interface_name is checked on real strings separately and enters the others as an arbitrary Option)',
                         'State::local_item, Item::kind, alias_export, expr are opaque with arbitrary results',
-                        'new_expr: sub-resolutions by contract (arbitrary name / success per argument; a spread adds one arbitrary name), graph calls are events; export inference and access resolution are outside the claim']
+                        'new_expr: sub-resolutions by contract (arbitrary name / success per argument; a spread adds one arbitrary name), graph calls are events']
     fns = chk.load('wac-parser'); decls = chk.decls('wac-parser')
     chk.part('find_matching_interface_name', part_fmi, chk, fns, decls)
     chk.part('inferred / named argument names', part_inferred, chk, fns, decls)
     chk.part('spread arguments', part_spread, chk, fns, decls)
     for n in chk.pick((1, 2, 3), (1, 2, 3, 4)): chk.part(f'new_expr[{n}]', part_new_expr, chk, fns, decls, n)
+    chk.part('access expressions', part_access, chk, fns, decls)
+    chk.part('export statements', part_export, chk, fns, decls)
 
 if __name__ == '__main__':
     harness.run_check('C04', body)
